@@ -328,7 +328,9 @@ class Gen(object):
         rng = self.rng
         ops = self.o['aggx_ops'] or self.o['agg_ops']
         if t == 'N':
-            cand = [x for x in ops if x in ('Sum', 'Min', 'Max', 'Count', '+', 'ArgMin',
+            # not `+`: its only spelling `(combine += e :- b)` is refused as a direct
+            # argument of a call / head ("place it in auxiliary variable first")
+            cand = [x for x in ops if x in ('Sum', 'Min', 'Max', 'Count', 'ArgMin',
                                             'ArgMax')]
         elif t == 'S':
             cand = [x for x in ops if x in ('Min', 'Max', 'ArgMin', 'ArgMax')]
